@@ -8,9 +8,20 @@ is_control_dependent_on_root`:
   no-cover / only-cover scope lists is instrumented by the real import hook (`BranchCoverageInstrumentation.
   visit_node` registers the predicates, `InstrumentationTransformer._create_covered_cdg` prunes the CDG); the
   registries, every code object's CDG before and after pruning and the CDG's answers are exported;
+* ``tgt``  a small module from the C07 shape grammar below (`target_source`): try/except-return, try/finally and
+  `with` regions FOLLOWED by conditionals / loops whose `else` (or header, elif, except, case) line is excluded,
+  with branches nested below; `while True:` loops, dead code after return/raise/break, loops in handlers.  These
+  are the shapes in which a basic block mixes `TryBegin`/`TryEnd` pseudo instructions with a conditional jump, in
+  which pruned nodes are re-linked below value-less nodes, and in which the CFG has unreachable cycles;
 * ``syn``  synthetic registries over hand-built `ControlDependenceGraph`s (well-formed ones and ones with
   unregistered labelled sources, unreachable nodes, cycles, self loops) — reaches the failure branches
   (`KeyError`, "Root branches" assertion, missing node) and arbitrary shapes quickly.
+
+For ``mod``/``tgt``/``src`` the arguments of the real `_create_covered_cdg` are captured and every node of the
+unpruned CDG is exported the way that function and `visit_node` look at it (pseudo / real instructions, the real
+`AstInfo` answers for the last instruction and for every original instruction): the Lean model decides itself
+which nodes are removed (`removedNodes`), builds the covered CDG (`coveredCdg`) and evaluates `checkPrune`
+(`Props/C07.covered_cdg_ok`).
 
 The Lean driver recomputes the re-linking, both CDG queries, the goal graph (roots, edges, or the exception
 kind), the whole `current_goals` / `covered_goals` trace of a cover schedule, and evaluates the verified
@@ -20,6 +31,7 @@ The oracle states the property in its own words on the implementation's behaviou
 from __future__ import annotations
 
 import random
+import sys
 import types
 
 import vcommon
@@ -60,20 +72,57 @@ def export_cdg(cdg):
     return nodes, blocks, ge
 
 
-def export_subject(sp, with_full):
+def block_infos(fcdg, ast_info, memo):
+    """Every node of the unpruned CDG as `_create_covered_cdg` / `visit_node` look at it (real AstInfo answers)."""
+    from bytecode import Instr
+
+    from pynguin.instrumentation import controlflow as cf
+
+    def ask(kind, lineno):
+        key = (id(ast_info), kind, lineno)
+        if key not in memo:
+            fn = ast_info.should_cover_line if kind == "l" else ast_info.should_cover_conditional_statement
+            memo[key] = bool(fn(lineno))
+        return memo[key]
+
+    out = []
+    for n in fcdg.graph.nodes:
+        if not isinstance(n, cf.BasicBlockNode):
+            out.append({"node": nid(n), "isBlock": False, "elems": [], "last": 0, "lines": []})
+            continue
+        elems = [isinstance(i, Instr) for i in n.basic_block]
+        last_instr = n.try_get_instruction(-1)
+        if last_instr is None:
+            last = 0
+        elif not isinstance(last_instr.lineno, int):
+            last = 1
+        else:
+            last = 3 if (ast_info is None or ask("c", last_instr.lineno)) else 2
+        lines = [0 if not isinstance(i.lineno, int) else (2 if (ast_info is None or ask("l", i.lineno)) else 1)
+                 for i in n.original_instructions]
+        out.append({"node": nid(n), "isBlock": True, "elems": elems, "last": last, "lines": lines})
+    return out
+
+
+def export_subject(sp, with_full, captured=None):
     """Registries + per code object CDG data of a (real or synthetic) SubjectProperties."""
     from pynguin.instrumentation import controlflow as cf
+    memo = {}
     preds = [{"id": pid, "co": m.code_object_id, "node": nid(m.node)} for pid, m in sp.existing_predicates.items()]
     cos = []
     for co, meta in sp.existing_code_objects.items():
         cdg = meta.cdg
         nodes, blocks, ge = export_cdg(cdg)
-        full, removed = None, []
+        full, removed, has_ast, binfo = None, [], None, None
         if with_full:
             fcdg = cf.ControlDependenceGraph.compute(meta.cfg)
             _, _, fge = export_cdg(fcdg)
             full = fge
             removed = [nid(n) for n in fcdg.graph.nodes if n not in cdg.graph]
+            if captured is not None and id(meta.cfg) in captured:
+                ast_info = captured[id(meta.cfg)][1]
+                has_ast = ast_info is not None
+                binfo = block_infos(fcdg, ast_info, memo)
         ans = []
         for m in sp.existing_predicates.values():
             if m.code_object_id != co:
@@ -84,7 +133,7 @@ def export_subject(sp, with_full):
                         "deps": [[nid(d.node), d.branch_value] for d in cdg.get_control_dependencies(m.node)],
                         "rootDep": bool(cdg.is_control_dependent_on_root(m.node))})
         cos.append({"co": co, "nodes": nodes, "blocks": blocks, "root": ROOT, "ge": ge, "full": full,
-                    "removed": removed, "ans": ans,
+                    "removed": removed, "ans": ans, "hasAst": has_ast, "binfo": binfo,
                     "entry": None if cdg.entry_node is None else nid(cdg.entry_node)})
     return preds, cos
 
@@ -328,6 +377,305 @@ def module_source(seed: int):
     return "\n".join(lines), sorted(only_cover), sorted(no_cover), mode
 
 
+# ---------------------------------------------------------------------------------------------------
+# targeted small modules: regions (try/with) x exclusions x nested branches, infinite loops, dead code
+# ---------------------------------------------------------------------------------------------------
+MARKS = ["  # pragma: no cover", "  # pynguin: no cover"]
+
+
+class Shape:
+    """Statement grammar for C07.  The functions are only instrumented, never called: loops need not terminate."""
+
+    def __init__(self, rng):
+        self.r = rng
+        self.tmp = 0
+        self.p_else = rng.choice([0.0, 0.3, 0.5, 0.7])      # else / elif / case lines
+        self.p_head = rng.choice([0.0, 0.05, 0.12])          # if / while / for / except / finally / with headers
+        self.p_line = rng.choice([0.0, 0.03, 0.08])          # plain statements
+        self.p_dead = rng.choice([0.0, 0.15, 0.4])           # statements after return / raise / break / continue
+        self.p_inf = rng.choice([0.05, 0.2, 0.4])            # `while True:` / `while 1:`
+        self.maxdepth = rng.choice([2, 3, 3])
+
+    def cond(self):
+        r = self.r
+        k = r.random()
+        v = r.choice("abcx")
+        if k < 0.5:
+            return f"{v} {r.choice(['<', '>', '==', '!='])} {r.randint(0, 5)}"
+        if k < 0.7:
+            return v
+        if k < 0.8:
+            return f"{v} > 1 {r.choice(['and', 'or'])} {r.choice('abcx')} < 4"
+        if k < 0.9:
+            return f"{v} is {r.choice(['', 'not '])}None"
+        return f"not {v}"
+
+    def mark(self, line, p, force=False):
+        if force or self.r.random() < p:
+            return line + self.r.choice(MARKS)
+        return line
+
+    def simple(self, p=None):
+        r = self.r
+        return self.mark(r.choice([f"x = {r.choice('abc')} + {r.randint(0, 3)}", f"x += {r.randint(1, 3)}",
+                                   f"{r.choice('abc')} -= 1", "x = g(x)"]), self.p_line if p is None else p)
+
+    @staticmethod
+    def ind(ls):
+        return ["    " + l for l in ls]
+
+    def block(self, depth, loop, n=None):
+        r = self.r
+        out = []
+        for _ in range(n if n is not None else r.choice([1, 1, 1, 2, 2, 3])):
+            st, term = self.stmt(depth, loop)
+            out += st
+            if term and r.random() >= self.p_dead:
+                break
+        return out
+
+    def nested(self, depth, loop):
+        """A body that holds at least one branch (the goals that hang below a pruned / re-linked node)."""
+        r = self.r
+        k = r.choice(["if", "if", "for", "while", "ifelse"])
+        ind = self.ind
+        if k == "if":
+            out = [f"if {self.cond()}:"] + ind(self.block(depth + 1, loop, 1))
+        elif k == "ifelse":
+            out = [f"if {self.cond()}:"] + ind(self.block(depth + 1, loop, 1)) + ["else:"] + ind([self.simple()])
+        elif k == "for":
+            self.tmp += 1
+            out = [f"for i{self.tmp} in items:"] + ind(self.block(depth + 1, True, 1))
+        else:
+            out = [f"while {self.cond()}:"] + ind(self.block(depth + 1, True, 1))
+        if r.random() < 0.4:  # an excluded plain line in the same basic block as a conditional that is to be covered
+            out = [self.simple(0.35)] + out
+        return out
+
+    def excluded_conditional(self, depth, loop):
+        """A conditional one of whose branches is excluded, with branches nested in the surviving one."""
+        r = self.r
+        ind = self.ind
+        k = r.choice(["ifelse", "ifelse", "ifelse", "elif", "whileelse", "forelse", "ifhead", "match"])
+        body = self.nested(depth + 1, loop)
+        tail = r.choice([[self.simple()], ["return -1"], ["x = -1"], ["raise ValueError(x)"]])
+        if k == "ifelse":
+            return [f"if {self.cond()}:"] + ind(body) + [self.mark("else:", 1, True)] + ind(tail)
+        if k == "elif":
+            return ([f"if {self.cond()}:"] + ind(body) + [self.mark(f"elif {self.cond()}:", 0.5)] + ind([self.simple()])
+                    + [self.mark("else:", 1, True)] + ind(tail))
+        if k == "whileelse":
+            c = "True" if r.random() < self.p_inf else self.cond()
+            return [f"while {c}:"] + ind(self.nested(depth + 1, True)) + [self.mark("else:", 1, True)] + ind(tail)
+        if k == "forelse":
+            self.tmp += 1
+            return ([f"for i{self.tmp} in items:"] + ind(self.nested(depth + 1, True))
+                    + [self.mark("else:", 1, True)] + ind(tail))
+        if k == "ifhead":
+            return [self.mark(f"if {self.cond()}:", 1, True)] + ind(body) + (["else:"] + ind(tail) if r.random() < 0.5 else [])
+        return ([f"match {r.choice('abx')}:", "    case 0:"] + ind(ind(body))
+                + [self.mark("    case 1 | 2:", 1, True)] + ind(ind(tail))
+                + ([self.mark("    case _:", 0.5)] + ind(ind([self.simple()])) if r.random() < 0.5 else []))
+
+    def focus(self, depth, loop):
+        """A try / with region directly followed by (or wrapped around) an excluded conditional."""
+        r = self.r
+        ind = self.ind
+        cond = self.excluded_conditional(depth + 1, loop)
+        k = r.choice(["after-tryret", "after-tryret", "after-tryret", "after-with", "after-tryfin", "in-with", "in-try",
+                      "in-tryfin", "plain"])
+        leave = r.choice(["return -1", "raise", "return x", "raise KeyError(a)"] + (["continue", "break"] if loop else []))
+        exc = r.choice(["ValueError", "KeyError", "(TypeError, ValueError)", "Exception"])
+        if k == "after-tryret":
+            return ["try:"] + ind(["x = int(a)"]) + [f"except {exc}:"] + ind([leave]) + cond
+        if k == "after-with":
+            return ["with g(a) as cm:"] + ind([self.simple()]) + cond
+        if k == "after-tryfin":
+            return ["try:"] + ind(["x = g(a)"]) + ["finally:"] + ind([self.simple()]) + cond
+        if k == "in-with":
+            return ["with g(a) as cm:"] + ind(cond)
+        if k == "in-try":
+            return ["try:"] + ind(cond) + [f"except {exc}:"] + ind([leave])
+        if k == "in-tryfin":
+            return ["try:"] + ind(cond) + ["finally:"] + ind([self.simple()])
+        return cond
+
+    def stmt(self, depth, loop):
+        """(lines, leaves the block?)"""
+        r = self.r
+        kinds = ["simple"] * 3 + ["return", "raise"]
+        if loop:
+            kinds += ["break", "continue"]
+        if depth < self.maxdepth:
+            kinds += ["if", "if", "ifelse", "ifelse", "ifelse", "elif", "while", "whileelse", "for", "forelse",
+                      "tryret", "tryret", "try", "tryfin", "with", "match", "focus", "focus", "focus"]
+        k = r.choice(kinds)
+        ind = self.ind
+        if k == "simple":
+            return [self.simple()], False
+        if k == "return":
+            return [self.mark(f"return {r.choice(['x', 'a', '-1', 'None'])}", self.p_line)], True
+        if k == "raise":
+            return [self.mark("raise ValueError(x)", self.p_line)], True
+        if k in ("break", "continue"):
+            return [self.mark(k, self.p_line)], True
+        if k == "focus":
+            return self.focus(depth, loop), False
+        if k == "if":
+            return [self.mark(f"if {self.cond()}:", self.p_head)] + ind(self.block(depth + 1, loop)), False
+        if k == "ifelse":
+            return ([self.mark(f"if {self.cond()}:", self.p_head)] + ind(self.block(depth + 1, loop))
+                    + [self.mark("else:", self.p_else)] + ind(self.block(depth + 1, loop))), False
+        if k == "elif":
+            return ([self.mark(f"if {self.cond()}:", self.p_head)] + ind(self.block(depth + 1, loop))
+                    + [self.mark(f"elif {self.cond()}:", self.p_else)] + ind(self.block(depth + 1, loop))
+                    + ([self.mark("else:", self.p_else)] + ind(self.block(depth + 1, loop))
+                       if r.random() < 0.6 else [])), False
+        if k in ("while", "whileelse"):
+            c = r.choice(["True", "True", "1"]) if r.random() < self.p_inf else self.cond()
+            out = [self.mark(f"while {c}:", self.p_head)] + ind(self.block(depth + 1, True))
+            if k == "whileelse":
+                out += [self.mark("else:", self.p_else)] + ind(self.block(depth + 1, loop, 1))
+            return out, False
+        if k in ("for", "forelse"):
+            self.tmp += 1
+            it = r.choice(["range(a)", "[a, b]", "items", "g(x)"])
+            out = [self.mark(f"for i{self.tmp} in {it}:", self.p_head)] + ind(self.block(depth + 1, True))
+            if k == "forelse":
+                out += [self.mark("else:", self.p_else)] + ind(self.block(depth + 1, loop, 1))
+            return out, False
+        if k == "tryret":  # the try body falls through into whatever follows; the handler leaves
+            h = r.choice(["return -1", "raise", "return x", "raise KeyError(a)"] + (["continue", "break"] if loop else []))
+            body = [r.choice(["x = int(a)", "x = int(a)", "pass", "return None"])]
+            out = (["try:"] + ind(body + (self.block(depth + 1, loop, 1) if r.random() < 0.4 else []))
+                   + [self.mark(f"except {r.choice(['ValueError', 'KeyError', '(TypeError, ValueError)', 'Exception'])}:",
+                                self.p_head)] + ind([h]))
+            return out, False
+        if k == "try":
+            out = ["try:"] + ind(self.block(depth + 1, loop))
+            out += ([self.mark(f"except {r.choice(['ValueError', 'KeyError'])}:", self.p_head)]
+                    + ind(self.block(depth + 1, loop, 1)))
+            if r.random() < 0.3:
+                out += [self.mark("except TypeError as e:", self.p_head)] + ind(self.block(depth + 1, loop, 1))
+            if r.random() < 0.3:
+                out += [self.mark("else:", self.p_else)] + ind(self.block(depth + 1, loop, 1))
+            if r.random() < 0.3:
+                out += [self.mark("finally:", self.p_head)] + ind(self.block(depth + 1, False, 1))
+            return out, False
+        if k == "tryfin":
+            return (["try:"] + ind(self.block(depth + 1, loop)) + [self.mark("finally:", self.p_head)]
+                    + ind([self.simple()])), False
+        if k == "with":
+            return [self.mark("with g(a) as cm:", self.p_head)] + ind(self.block(depth + 1, loop)), False
+        if k == "match":
+            out = [f"match {r.choice('abx')}:", self.mark(f"    case {r.randint(0, 2)}:", self.p_else)]
+            out += ind(ind(self.block(depth + 2, loop, 1)))
+            out += [self.mark(f"    case {r.randint(3, 5)} | 7:", self.p_else)] + ind(ind(self.block(depth + 2, loop, 1)))
+            if r.random() < 0.6:
+                out += [self.mark("    case _:", self.p_else)] + ind(ind(self.block(depth + 2, loop, 1)))
+            return out, False
+        raise AssertionError(k)
+
+    def function(self, name):
+        body = ["x = 0"] + self.block(0, False, self.r.randint(1, 3))
+        if self.r.random() < 0.8:
+            body += ["return x"]
+        return [f"def {name}(a, b, c, items=()):"] + self.ind(body)
+
+
+def target_source(seed: int):
+    """Deterministic from the seed: a small module of the C07 shape grammar (+ scope lists now and then)."""
+    rng = random.Random(seed)
+    sh = Shape(rng)
+    lines = ["def g(v):", "    return v", ""]
+    names = []
+    for i in range(rng.choice([1, 1, 2])):
+        lines += sh.function(f"f{i}") + [""]
+        names.append(f"f{i}")
+    only_cover, no_cover = [], []
+    k = rng.random()
+    if k < 0.08:
+        no_cover = [rng.choice(names + ["g"])]
+    elif k < 0.16:
+        only_cover = [rng.choice(names)]
+    return "\n".join(lines) + "\n", only_cover, no_cover
+
+
+ANCHOR_FILES = ("controlflow.py", "dynamosaalgorithm.py")
+CFG_KEYERROR = "cfg-construction-keyerror-unreachable-loop"
+
+
+def instrument_capturing(src, only_cover, no_cover):
+    """instr.instrument_module with the arguments of the real `_create_covered_cdg` recorded per CFG."""
+    import instr
+    from pynguin.instrumentation import transformer as tr
+    captured = {}
+    real = tr.InstrumentationTransformer._create_covered_cdg
+
+    def spy(self_, cfg, ast_info):
+        captured[id(cfg)] = (cfg, ast_info)
+        return real(self_, cfg, ast_info)
+
+    tr.InstrumentationTransformer._create_covered_cdg = spy
+    try:
+        mod, sp, d = instr.instrument_module(src, only_cover=only_cover, no_cover=no_cover)
+    except BaseException:
+        # instr.instrument_module leaves its scratch directory behind when the import raises
+        import glob
+        import os
+        import shutil
+        import tempfile
+        for f in glob.glob(os.path.join(tempfile.gettempdir(), "verif_instr_*", f"verifsut_{os.getpid()}_*.py")):
+            if not any(getattr(m, "__file__", None) == f for m in list(sys.modules.values())):
+                shutil.rmtree(os.path.dirname(f), ignore_errors=True)
+        raise
+    finally:
+        tr.InstrumentationTransformer._create_covered_cdg = real
+    return mod, sp, d, captured
+
+
+def has_unreachable_cycle(src):
+    """Independent of `_insert_dummy_nodes`: does some code object's raw block graph hold a cycle that the first
+    block does not reach?  (Edges as pynguin creates them, reachability / cycles by networkx.)"""
+    import networkx as nx
+    from bytecode import Bytecode, ControlFlowGraph
+
+    import progen
+    from pynguin.instrumentation import controlflow as cf
+    from pynguin.instrumentation import version
+    try:
+        for code in progen.all_code_objects(compile(src, "<c07>", "exec")):
+            blocks = ControlFlowGraph.from_bytecode(version.add_for_loop_no_yield_nodes(Bytecode.from_code(code)))
+            cfg = cf.CFG(blocks)
+            cf.CFG._split_try_begin_blocks(blocks)
+            edges, nodes = cf.CFG._create_nodes_and_edges(blocks)
+            cf.CFG._create_graph(cfg, edges, nodes)
+            entry = cfg.first_basic_block_node
+            reach = nx.descendants(cfg.graph, entry) | {entry}
+            for scc in nx.strongly_connected_components(cfg.graph):
+                n = next(iter(scc))
+                if n not in reach and (len(scc) > 1 or cfg.graph.has_edge(n, n)):
+                    return True
+    except Exception:  # noqa: BLE001
+        return False
+    return False
+
+
+def instrumentation_failure(e, src):
+    """Where the real instrumentation raised: the innermost pynguin frame, and whether it is C07's business."""
+    import os
+    import traceback
+    frames = [f for f in traceback.extract_tb(e.__traceback__) if "/pynguin/" in f.filename]
+    names = [(os.path.basename(f.filename), f.name) for f in frames]
+    last = names[-1] if names else ("?", "?")
+    anchored = last[0] in ANCHOR_FILES or any(n == "_create_covered_cdg" for _, n in names)
+    out = {"instr_err": type(e).__name__, "file": last[0], "func": last[1], "anchored": anchored, "src": src,
+           "unreachable_cycle": False}
+    if anchored and isinstance(e, KeyError) and any(n == "_insert_dummy_nodes" for _, n in names):
+        out["unreachable_cycle"] = has_unreachable_cycle(src)
+    return out
+
+
 class C07(PropertyCheck):
     prop_id = "C07"
     prop_modules = ["PynguinModel.Props.C07"]
@@ -336,8 +684,12 @@ class C07(PropertyCheck):
     n_quick = 180
     n_thorough = 3000
     n_search = 1500
-    MOD_SHARE = {"quick": 0.08, "thorough": 0.1}
-    rule = ("mod = generated module (progen: nested/sequential branches, loops, try/except, early returns, with/"
+    MOD_SHARE = {"quick": 0.05, "thorough": 0.08}
+    TGT_SHARE = {"quick": 0.40, "thorough": 0.40}
+    rule = ("tgt = small module of the C07 shape grammar (try/except-return, try/finally, with regions followed by / "
+            "wrapped around conditionals and loops with an excluded else / elif / case / header line and branches "
+            "nested below; while True loops; dead code after return/raise/break; loops in handlers; no-cover / "
+            "only-cover lists); mod = generated module (progen: nested/sequential branches, loops, try/except, early returns, with/"
             "match/comprehensions/closures) with random pragma / pynguin no-cover markers and no-cover / only-cover "
             "scope lists, instrumented by the real import hook; syn = synthetic registries over hand-built "
             "ControlDependenceGraphs (half of them deliberately ill-formed); each with a cover schedule of up to 7 "
@@ -358,8 +710,11 @@ class C07(PropertyCheck):
 
     # ---- generation ----
     def gen_case(self, rng):
-        if rng.random() < self.MOD_SHARE[self.tier]:
+        k = rng.random()
+        if k < self.MOD_SHARE[self.tier]:
             return {"kind": "mod", "seed": rng.randrange(1 << 30), "sched_seed": rng.randrange(1 << 30)}
+        if k < self.MOD_SHARE[self.tier] + self.TGT_SHARE[self.tier]:
+            return {"kind": "tgt", "seed": rng.randrange(1 << 30), "sched_seed": rng.randrange(1 << 30)}
         return gen_syn(rng, broken=rng.random() < 0.45)
 
     # ---- implementation ----
@@ -384,15 +739,23 @@ class C07(PropertyCheck):
         if kind == "mod":
             src, only_cover, no_cover, mode = module_source(case["seed"])
             self.count("exclusions:" + mode)
+        elif kind == "tgt":
+            src, only_cover, no_cover = target_source(case["seed"])
+            self.count("tgt-exclusions:" + ("marks" if "no cover" in src else "none")
+                       + ("+scopes" if only_cover or no_cover else ""))
         else:
             src, only_cover, no_cover = case["src"], case.get("only_cover", []), case.get("no_cover", [])
         try:
-            mod, sp, d = instr.instrument_module(src, only_cover=only_cover, no_cover=no_cover)
+            mod, sp, d, captured = instrument_capturing(src, only_cover, no_cover)
         except ValueError as e:  # overlapping only/no cover lists: pynguin rejects the configuration
             self.count("config-rejected")
             return {"skipped": str(e)[:80]}
+        except Exception as e:  # noqa: BLE001  the real instrumentation raised: classified by the oracle
+            out = instrumentation_failure(e, src)
+            self.count(f"instrumentation-raised:{out['instr_err']}@{out['file']}:{out['func']}")
+            return dict(out, only_cover=only_cover, no_cover=no_cover)
         try:
-            preds, cos = export_subject(sp, with_full=True)
+            preds, cos = export_subject(sp, with_full=True, captured=captured)
             ngoals = 2 * len(preds) + sum(1 for c in cos if not any(p["co"] == c["co"] for p in preds))
             sched = case.get("sched")
             if sched is None:
@@ -401,16 +764,22 @@ class C07(PropertyCheck):
         finally:
             instr.cleanup(d, mod)
         self.count("removed-nodes:" + ("yes" if any(c["removed"] for c in cos) else "no"))
+        mixed = any(b["isBlock"] and any(b["elems"]) and not all(b["elems"]) for c in cos for b in (c["binfo"] or []))
+        self.count("block-mixing-pseudo-and-real-instr:" + ("yes" if mixed else "no"))
+        mixed_removed = any(b["isBlock"] and any(b["elems"]) and not all(b["elems"]) and b["node"] in c["removed"]
+                            for c in cos for b in (c["binfo"] or []))
+        self.count("removed-block-with-pseudo-instr:" + ("yes" if mixed_removed else "no"))
         self.count(f"goals:{min(len(goals) // 10 * 10, 60)}+")
         return {"goals": goals, "preds": preds, "cos": cos, "sched": sched, "build": build, "trace": trace,
-                "src": src if kind == "mod" else None, "only_cover": only_cover, "no_cover": no_cover}
+                "src": src, "only_cover": only_cover, "no_cover": no_cover}
 
     # ---- model ----
     def model_line(self, case):
         io = self.impl(case)
-        if "skipped" in io:
+        if "skipped" in io or "instr_err" in io:
             return None
-        cos = [{k: c[k] for k in ("co", "nodes", "blocks", "root", "ge", "full", "removed", "ans")} for c in io["cos"]]
+        cos = [{k: c[k] for k in ("co", "nodes", "blocks", "root", "ge", "full", "removed", "ans", "hasAst", "binfo")}
+               for c in io["cos"]]
         return vcommon.jdump({"goals": io["goals"], "preds": io["preds"], "cos": cos, "sched": io["sched"]})
 
     @staticmethod
@@ -438,6 +807,16 @@ class C07(PropertyCheck):
             if c["full"] is not None:
                 have = sorted([[e["s"], e["t"], e["l"]] for e in c["ge"]], key=lambda e: (e[0], e[1], str(e[2])))
                 ok = ok and sorted(rel, key=lambda e: (e[0], e[1], str(e[2]))) == have
+        # `_create_covered_cdg` as a whole: the model selects the nodes to remove itself (same nodes, same order),
+        # its covered CDG is the stored one, the hypotheses of `covered_cdg_ok` hold, predicates sit behind the gate
+        for c, pr in zip(io["cos"], mo["prune"]):
+            if c["binfo"] is None:
+                ok = ok and pr is None
+                continue
+            have = sorted([[e["s"], e["t"], e["l"]] for e in c["ge"]], key=lambda e: (e[0], e[1], str(e[2])))
+            ok = ok and pr is not None and "bad-op" not in pr and pr["removed"] == c["removed"] \
+                and sorted(pr["covered"], key=lambda e: (e[0], e[1], str(e[2]))) == have \
+                and pr["prune"] is True and pr["regGate"] is True
         # the verified checkers accept every real module; then the model fed with the REAL answers builds
         # the same graph (checkModule_sound: it cannot fail and every goal is reachable)
         if mo["hyp"]:
@@ -477,6 +856,19 @@ class C07(PropertyCheck):
             return []
         fs = []
         sig = lambda c: {"kind": case["kind"], "class": c}  # noqa: E731
+        if "instr_err" in io:
+            # no goal graph can be built for a module the anchored CFG / CDG construction rejects; failures of
+            # other parts of the instrumentation (bytecode assembly, adapters) are not C07's and only counted
+            if not io["anchored"]:
+                return []
+            if io["unreachable_cycle"]:
+                return [Failure({"class": CFG_KEYERROR},
+                                "CFG.from_bytecode raises KeyError in _insert_dummy_nodes for a loop that the first "
+                                "block does not reach: the module cannot be instrumented, no goal graph is built",
+                                detail={"src": io["src"]})]
+            return [Failure(sig(f"instrumentation-raises-{io['instr_err']}-in-{io['func']}"),
+                            f"{io['file']}:{io['func']} raised {io['instr_err']} while instrumenting the module",
+                            detail={"src": io["src"], "only_cover": io["only_cover"], "no_cover": io["no_cover"]})]
         build = io["build"]
         demanding = case["kind"] != "syn" or self._wellformed(io)
         if "err" in build:
@@ -539,12 +931,27 @@ class C07(PropertyCheck):
                                   "every goal is coverable", detail=self._detail(io)))
         return fs[:4]
 
+    def witnesses(self):
+        """Replay the witnesses of the recorded findings on the implementation."""
+        fs = []
+        for k in vcommon.load_known(self.prop_id):
+            case = k.get("witness")
+            if not case:
+                continue
+            for f in self.oracle(case, self.impl(case)):
+                if f.signature == k["signature"]:
+                    f.case = case
+                    fs.append(f)
+        return fs
+
     @staticmethod
     def _detail(io):
         return {"src": io.get("src"), "only_cover": io.get("only_cover"), "no_cover": io.get("no_cover"),
                 "preds": io["preds"], "build": io["build"]}
 
     def classify(self, case, io):
+        if "instr_err" in io:
+            return None
         if "skipped" in io or "err" in io["build"]:
             return None if "skipped" in io else "err:" + vcommon.jdump([io["build"], io["preds"], [c["ge"] for c in io["cos"]]])
         if io["build"]["children"]:
